@@ -254,7 +254,9 @@ type readBuf struct {
 // newReadBuf returns a read buffer into which the peer's bytes (the frame under
 // test followed by the next frame) have been read.
 func newReadBuf(frame, trailer []byte) *readBuf {
-	b := buffer.GetIoBuffer(len(frame) + len(trailer) + 1)
+	// (a plain slice of the needed size instead of the connection's pooled
+	// defaultReadBufferSize one that ReadOnce grows: same IoBuffer code paths below)
+	b := buffer.NewIoBufferBytes(make([]byte, 0, len(frame)+len(trailer)+1))
 	b.Write(frame)
 	b.Write(trailer)
 	back := b.Bytes()
